@@ -338,6 +338,9 @@ func checkC04(c *Check) {
 
 	// the state requested is the state of THIS request (container path): no field inherited from the previous message
 	checkFreshDecode(c, "O11/request-is-fresh")
+	checkDefaultIdentity(c)
+	checkChildArguments(c, "O14/child-arguments")
+	importObs(c, "C19", "C19.10/wire-types", "O13/config-arrives", nil)
 }
 
 // storesToGlobal lists stores to a package-level variable outside package initialisers.
@@ -759,7 +762,37 @@ func checkIDMaps(c *Check) {
 			c.OK("O9/id-maps", key, p.Pos(wcall.Pos()), fmt.Sprintf("a failed id-map write reaches the child as a nonzero word on all %d path(s)", relayed))
 		}
 	}
-	c.Expect("O9/id-maps", 5)
+	// what is written into uid_map / gid_map is computed in this call (from the Runner's mappings or from the ids the
+	// process has now): never a package variable filled at some earlier time
+	for _, w := range writes {
+		if w.file == "/setgroups" {
+			continue
+		}
+		var g *ssa.Global
+		for _, a := range w.site.Common().Args {
+			if _, isSl := a.Type().Underlying().(*types.Slice); isSl {
+				if x := mutableGlobalOrigin(a, 0, map[ssa.Value]bool{}); x != nil {
+					g = x
+				}
+			}
+		}
+		if w.leaf != w.site {
+			for _, a := range w.leaf.Common().Args {
+				if _, isSl := a.Type().Underlying().(*types.Slice); isSl {
+					if x := mutableGlobalOrigin(a, 0, map[ssa.Value]bool{}); x != nil {
+						g = x
+					}
+				}
+			}
+		}
+		gn := ""
+		if g != nil {
+			gn = g.Name()
+		}
+		c.Cond(g == nil, "O9/id-maps", "forkexec."+fn.Name()+":fresh"+w.file, p.Pos(w.site.Pos()), "the content of "+w.file+" is computed in this call",
+			"the content of "+w.file+" comes from the package variable "+gn+": ids captured at another time (package initialisation, an earlier launch) are mapped instead of the ids the launcher has now")
+	}
+	c.Expect("O9/id-maps", 7)
 }
 
 // checkRunnerLiterals: the three callers build forkexec.Runner with the security fields attributed to them.
